@@ -336,29 +336,35 @@ pub async fn rows_found_by_time(
 
 /// every row of a Parquet object as "col=value" pairs of its non-null columns (timestamps as integer nanoseconds)
 pub fn whole_rows(data: Bytes) -> Result<Vec<String>, String> {
-    use arrow_array::cast::AsArray;
     let reader = parquet::arrow::arrow_reader::ParquetRecordBatchReaderBuilder::try_new(data).map_err(|e| e.to_string())?.build().map_err(|e| e.to_string())?;
     let mut out = Vec::new();
     for b in reader {
-        let b = b.map_err(|e| e.to_string())?;
-        let schema = b.schema();
-        for r in 0..b.num_rows() {
-            let mut kv: Vec<String> = Vec::new();
-            for (c, f) in schema.fields().iter().enumerate() {
-                let a = b.column(c);
-                if a.is_null(r) {
-                    continue;
-                }
-                let v = match f.data_type() {
-                    arrow_schema::DataType::Timestamp(arrow_schema::TimeUnit::Nanosecond, _) => a.as_primitive::<arrow_array::types::TimestampNanosecondType>().value(r).to_string(),
-                    _ => arrow::util::display::array_value_to_string(a, r).map_err(|e| e.to_string())?,
-                };
-                kv.push(format!("{}={}", f.name(), v));
-            }
-            kv.sort();
-            out.push(kv.join(","));
-        }
+        out.extend(whole_rows_of_batch(&b.map_err(|e| e.to_string())?)?);
     }
     Ok(out)
 }
 
+/// the same rendering straight from an Arrow batch (no Parquet round trip)
+pub fn whole_rows_of_batch(b: &RecordBatch) -> Result<Vec<String>, String> {
+    use arrow_array::cast::AsArray;
+    let mut out = Vec::new();
+    let schema = b.schema();
+    for r in 0..b.num_rows() {
+        let mut kv: Vec<String> = Vec::new();
+        for (c, f) in schema.fields().iter().enumerate() {
+            let a = b.column(c);
+            if a.is_null(r) {
+                continue;
+            }
+            let v = match f.data_type() {
+                DataType::Timestamp(TimeUnit::Nanosecond, _) => a.as_primitive::<arrow_array::types::TimestampNanosecondType>().value(r).to_string(),
+                DataType::Float64 => format!("{:?}/{:016x}", a.as_primitive::<arrow_array::types::Float64Type>().value(r), a.as_primitive::<arrow_array::types::Float64Type>().value(r).to_bits()),
+                _ => arrow::util::display::array_value_to_string(a, r).map_err(|e| e.to_string())?,
+            };
+            kv.push(format!("{}={}", f.name(), v));
+        }
+        kv.sort();
+        out.push(kv.join(","));
+    }
+    Ok(out)
+}
